@@ -196,6 +196,22 @@ def native_rectgeo(arg, values):
     if rot:
         geo.rotate(rot, np.array([_val(values, 'rcx', 1.5), _val(values, 'rcy', -2.5)])); geo.permeability_angle = -rot
     grid = t2grid().fromgeo(geo)
+    own = [b.name for b in grid.blocklist]
+    bc = arg[6] if len(arg) > 6 and arg[6] in ('top-zero', 'top-huge', 'bottom-huge') else None
+    if bc:
+        from t2grids import t2block, t2connection
+        vol = 0. if bc.endswith('zero') else 1.e50
+        def newblock(k):
+            grid.add_block(t2block('Z%s%2d' % ('ABCDEFGHIJ'[(k // 99) % 10], k % 99 + 1), vol, grid.rocktypelist[0]))
+            return grid.blocklist[-1]
+        if bc.startswith('top'):
+            for k, col in enumerate(geo.columnlist):
+                blk = grid.block[geo.block_name(geo.column_surface_layer(col).name, col.name)]
+                grid.add_connection(t2connection([blk, newblock(k)], 3, [col.surface - blk.centre[2], 1.e-6], col.area, -1.))
+        else:
+            b = newblock(0); lay = geo.layerlist[-1]
+            for col in geo.columnlist:
+                grid.add_connection(t2connection([b, grid.block[geo.block_name(lay.name, col.name)]], 3, [1.e-6, 0.5 * lay.thickness], col.area, 1.))
     try:
         geo2, bm = grid.rectgeo(atmos_type=atm, convention=convention)
     except Exception as ex:
@@ -217,12 +233,12 @@ def native_rectgeo(arg, values):
     if min(dang, 360. - dang) > 1e-6 or abs(geo2.layerlist[0].bottom - org[2]) > 1e-9 * max(1., abs(org[2])): bad.append('orientation %r / top elevation %r, original %r / %r' % (geo2.permeability_angle, geo2.layerlist[0].bottom, -rot, org[2]))
     try:
         g2 = t2grid().fromgeo(geo2, bm)
-        n1, n2 = [b.name for b in grid.blocklist], [b.name for b in g2.blocklist]
+        n1, n2 = own, [b.name for b in g2.blocklist]
         if sorted(n1) != sorted(n2): bad.append('block names %r regenerated as %r' % (n1, n2))
         else:
             for nm in n1[geo.num_atmosphere_blocks:]:
                 if not close(grid.block[nm].volume, g2.block[nm].volume): bad.append('block %r volume %r regenerated as %r' % (nm, grid.block[nm].volume, g2.block[nm].volume))
-            k1 = dict((frozenset(b.name for b in c.block), c) for c in grid.connectionlist); k2 = dict((frozenset(b.name for b in c.block), c) for c in g2.connectionlist)
+            k1 = dict((frozenset(b.name for b in c.block), c) for c in grid.connectionlist if all(b.name in own for b in c.block)); k2 = dict((frozenset(b.name for b in c.block), c) for c in g2.connectionlist)
             if set(k1) != set(k2): bad.append('connections differ')
             else:
                 for k in k1:
